@@ -983,3 +983,19 @@ Proof.
   repeat split; try reflexivity. eexists; eexists. repeat split; try reflexivity.
   intro H. apply (f_equal (fun v => map pm_graph (pv_models v))) in H. vm_compute in H. discriminate.
 Qed.
+
+(* a LockedMachine pickled from INSIDE its contexts (pickle.dumps(machine) in a callback): the IdentManager (context 1,
+   state not reset by pickling) names its owning thread, and so does the copy's *)
+Definition xiworld : world nat :=
+  mkW [(10, mkMobj 0 true)] [(0, mkLobj 0 true true); (1, mkLobj 1 true false)].
+Definition xinside : machine nat (nat * option nat) :=
+  fold_left (tab_step xrender xiworld) [TAdd 10 []] (init_machine (mkCls false false true false) 7 false [0; 1]).
+
+Lemma ex_ident_kept :
+  wf xinside = true /\ fresh (xplus 100) (xplus 100) xiworld xinside = true /\ guard xinside = true /\
+  exists w' m', snapshot xrender (xplus 100) (xplus 100) xiworld xinside = Some (w', m') /\
+    m_mctx m' = [100; 101] /\
+    lookup (w_locks w') 100 = Some (mkLobj 0 false true) /\        (* the PicklableLock comes back unlocked *)
+    lookup (w_locks w') 101 = Some (mkLobj 1 true false) /\        (* the IdentManager still names an owner *)
+    map pm_ctx (pv_models (resolve w' m')) = [[Some (mkLobj 0 false true); Some (mkLobj 1 true false)]].
+Proof. repeat split; try reflexivity. eexists; eexists; repeat split; reflexivity. Qed.
